@@ -477,6 +477,10 @@ class System:
 
         # === no device addition or removal after this point ===
         self.calc_pu_coeff()   # calculate parameters in system per units
+        if ret is True:
+            # external parameters were linked before the conversion; refresh them so that
+            # they carry the system-base values of their sources
+            self.link_ext_param()
         self.store_existing()  # store models with routine flags
 
         # assign address at the end before adding devices and processing parameters
